@@ -43,6 +43,9 @@ var (
 		if d < len(fixed) {
 			return qt.Int(fixed[d])
 		}
+		if spell := []string{"010", "017", "0123", "00", "0777", "0010"}; d < len(fixed)+len(spell) {
+			return qt.IntText(spell[d-len(fixed)]) // leading zeros: still decimal
+		}
 		return qt.Int(r.Intn(2000000) - 1000)
 	}}
 	vgNegInt = valGen{"negint", true, func(r *rand.Rand, d int) qt.Value {
@@ -344,7 +347,7 @@ type c03Plan struct {
 }
 
 func newC03Plan(tier string) *c03Plan {
-	p := &c03Plan{draws: 8, space: newFragSpace(false), stride: 1, nDeep: 8}
+	p := &c03Plan{draws: 14, space: newFragSpace(false), stride: 1, nDeep: 8}
 	if tier == "thorough" {
 		p.draws = 400
 		p.space = newFragSpace(true)
